@@ -71,9 +71,86 @@ func guardedBuffer(c *an.Ctx, pl *an.PkgLocks, fns []*ssa.Function, field, lock 
 			n++
 			c.Check(pl.MustHoldClass(s.Instr, root, lock), fmt.Sprintf("%s | alias of %s used under %s", an.ShortFunc(fn), fieldName, lockName), c.At(s.Instr), "",
 				"a slice sharing "+fieldName+"'s backing array is used after "+lockName+" was released (or before it was taken): "+why)
+			// ... and in the critical section in which it was obtained: holding the lock again later is not
+			// enough, another holder may have rewritten the buffer in between
+			if straddle := straddlesUnlock(pl, fn, sources, s.Instr, lock); straddle != nil {
+				c.Bad(fmt.Sprintf("%s | alias of %s is used in the critical section that produced it", an.ShortFunc(fn), fieldName), c.At(s.Instr),
+					"a slice sharing "+fieldName+"'s backing array is kept across "+c.At(straddle)+", where "+lockName+" is released, and used after the lock is taken again: "+why)
+			}
 		}
 	}
 	return n
+}
+
+// straddlesUnlock returns a release of the lock class that can run between the point an alias source was
+// obtained and the use (on a path that does not obtain the source again), or nil.
+func straddlesUnlock(pl *an.PkgLocks, fn *ssa.Function, sources []ssa.Value, use ssa.Instruction, lock *types.Var) ssa.Instruction {
+	var unlocks []ssa.Instruction
+	an.Instrs(fn, func(in ssa.Instruction) {
+		call, ok := in.(*ssa.Call) // deferred releases run at function exit: never between two instructions
+		if !ok {
+			return
+		}
+		if op, isOp := pl.LT.OpOf(call.Common()); isOp && op.Kind == "unlock" && len(op.Lock.Fields) > 0 && op.Lock.Fields[len(op.Lock.Fields)-1].Origin() == lock.Origin() {
+			unlocks = append(unlocks, in)
+		}
+	})
+	if len(unlocks) == 0 {
+		return nil
+	}
+	for _, src := range sources {
+		def, ok := src.(ssa.Instruction)
+		if !ok || def.Block() == nil {
+			continue
+		}
+		for _, u := range unlocks {
+			if an.CanReach(def, u) && reachAvoiding(u, use, def) {
+				return u
+			}
+		}
+	}
+	return nil
+}
+
+// reachAvoiding: there is a path from instruction a to instruction b that does not execute avoid.
+func reachAvoiding(a, b, avoid ssa.Instruction) bool {
+	idx := func(in ssa.Instruction) int {
+		for i, x := range in.Block().Instrs {
+			if x == in {
+				return i
+			}
+		}
+		return -1
+	}
+	ia, ib, iv := idx(a), idx(b), idx(avoid)
+	// within a's block after a
+	if a.Block() == b.Block() && ia < ib && !(avoid.Block() == a.Block() && ia < iv && iv < ib) {
+		return true
+	}
+	if avoid.Block() == a.Block() && iv > ia {
+		return false // avoid runs before a's block is left
+	}
+	seen := map[*ssa.BasicBlock]bool{}
+	stack := append([]*ssa.BasicBlock{}, a.Block().Succs...)
+	for len(stack) > 0 {
+		x := stack[len(stack)-1]
+		stack = stack[:len(stack)-1]
+		if seen[x] {
+			continue
+		}
+		seen[x] = true
+		if x == b.Block() {
+			if !(avoid.Block() == x && iv < ib) {
+				return true
+			}
+			continue
+		}
+		if x == avoid.Block() {
+			continue
+		}
+		stack = append(stack, x.Succs...)
+	}
+	return false
 }
 
 // writerFlagAgreement: abstract interpretation of the Writer's (buffer
